@@ -386,11 +386,11 @@ func xmlAttrEsc(s string) string {
 }
 
 type PrintOpts struct {
-	Indent   bool
-	Newline  string
+	Indent    bool
+	Newline   string
 	SelfClose bool // empty elements as <x/>
-	Quote    byte
-	AttrPerm func(n int) []int
+	Quote     byte
+	AttrPerm  func(n int) []int
 }
 
 func (n *Node) MJML() string { return n.Print(PrintOpts{}) }
